@@ -192,6 +192,10 @@ func c20Menu() []c20Conv {
 	// a conversion made by contract code: k0 calls the factory, which CREATEs a child (endowment =
 	// amount + margin) whose constructor executes CONVERT and then stops (Amt 0) or reverts (Amt 1)
 	out = append(out, c20Conv{"contract->qi", 0, 0, 0}, c20Conv{"contract->qi", 1, 0, 0})
+	// the same through a library: the child's constructor DELEGATECALLs a deployed library whose code
+	// executes CONVERT (in the child's context) and then stops (Amt 2) or reverts (Amt 3); the
+	// constructor ignores the result and stops, so the transaction succeeds either way
+	out = append(out, c20Conv{"contract->qi", 2, 0, 0}, c20Conv{"contract->qi", 3, 0, 0})
 	for _, d := range []int{6, 4} { // spend a denomination-6 / denomination-4 output
 		for _, s := range c20Slips {
 			out = append(out, c20Conv{"qi->quai", d, s, 0})
@@ -207,6 +211,9 @@ func (cv c20Conv) String() string {
 // c20Inject creates the conversion transaction; returns nil if not applicable.
 func c20Inject(s *scen, cv c20Conv, nonceOff uint64) *types.Transaction {
 	if cv.Dir == "contract->qi" {
+		if cv.Amt >= 2 {
+			return c20FactoryCallVia(s, c20Libs[cv.Amt-2], nonceOff)
+		}
 		return c20FactoryCall(s, cv.Amt == 1, nonceOff)
 	}
 	var slip []byte
@@ -277,6 +284,7 @@ func c20FactoryInit(s *scen, nonce uint64) ([]byte, common.Address) {
 	return c20Pad(s.k[1].Addr, nonce, a.Bytes())
 }
 
+var c20Libs [2]common.Address     // libraries: CONVERT then STOP / CONVERT then REVERT (set by c20DeployFactory)
 var c20Factory common.Address    // set by c20DeployFactory for the scenario being run
 var c20Children []common.Address // predicted children of the factory calls of the scenario being run
 
@@ -289,7 +297,50 @@ func c20DeployFactory(s *scen) error {
 	}
 	c20Factory = addr
 	c20Children = nil
+	// the two libraries, deployed by k1 with the next two nonces
+	for i := 0; i < 2; i++ {
+		a := &c02Asm{}
+		a.Push(c20EtxGas).PushBig(c20ContractAmount).PushAddr(s.q[1].Addr).Push(0).Op(vm.CONVERT, vm.POP)
+		if i == 1 {
+			a.Push(0).Push(0).Op(vm.REVERT)
+		} else {
+			a.Op(vm.STOP)
+		}
+		rt := a.Bytes()
+		d := &c02Asm{}
+		d.MStoreBytes(0, rt)
+		d.Push(uint64(len(rt))).Push(0).Op(vm.RETURN)
+		ln := nonce + 1 + uint64(i)
+		linit, laddr := c20Pad(s.k[1].Addr, ln, d.Bytes())
+		ltx := s.n.QuaiTxAL(s.k[1], ln, nil, common.Big0, 1500000, new(big.Int).Mul(scenPrice, big.NewInt(3)), linit, types.AccessList{{Address: laddr}})
+		if errs := s.n.AddTxs(ltx); errs[0] != nil {
+			return fmt.Errorf("library deployment refused: %v", errs[0])
+		}
+		c20Libs[i] = laddr
+	}
 	return nil
+}
+
+// c20FactoryCallVia: as c20FactoryCall, but the child's constructor reaches CONVERT through a
+// DELEGATECALL into lib and ignores whether that frame succeeded.
+func c20FactoryCallVia(s *scen, lib common.Address, nonceOff uint64) *types.Transaction {
+	a := &c02Asm{}
+	a.Push(0).Push(0).Push(0).Push(0).PushAddr(lib).Push(600000).Op(vm.DELEGATECALL, vm.POP, vm.STOP)
+	st, err := s.n.VStateAt(s.n.Heads[2])
+	if err != nil {
+		panic("harness: state at head: " + err.Error())
+	}
+	fi, _ := c20Factory.InternalAddress()
+	li, _ := lib.InternalAddress()
+	if st.GetCodeSize(fi) == 0 || st.GetCodeSize(li) == 0 {
+		panic("harness: factory or library contract is not deployed")
+	}
+	init, child := c20Pad(c20Factory, st.GetNonce(fi), a.Bytes())
+	c20Children = append(c20Children, child)
+	to := c20Factory
+	value := new(big.Int).Add(c20ContractAmount, c20ContractMargin)
+	al := types.AccessList{{Address: c20Factory}, {Address: child}, {Address: lib}, {Address: s.q[1].Addr}}
+	return s.n.QuaiTxAL(s.k[0], s.nonce(s.k[0])+nonceOff, &to, value, 2500000, new(big.Int).Mul(scenPrice, big.NewInt(3)), init, al)
 }
 
 // c20FactoryCall: k0 calls the factory with the child's init code: CONVERT(amount -> Qi address q1),
@@ -321,7 +372,9 @@ func c20FactoryCall(s *scen, revert bool, nonceOff uint64) *types.Transaction {
 const c20Prefix = "zpczpzpzzzz" // Qi outputs of q0 exist and are unlocked; several prime blocks behind us
 const c20Drain = "zpzpzpzzzzz"
 
-func c20RunSet(set []c20Conv) (string, string, string) {
+// c20RunSet: forks=true mines every prime block of the drain as two siblings (see scen.forkPrimes):
+// the conversions are then repriced by prime once for each sibling.
+func c20RunSet(set []c20Conv, forks bool) (string, string, string) {
 	s, err := newScen(3, false, nil)
 	if err != nil {
 		return "harness", err.Error(), ""
@@ -367,7 +420,11 @@ func c20RunSet(set []c20Conv) (string, string, string) {
 		}
 	}
 	balK1 := s.n.VBalance(s.k[1].Addr)
+	s.forkPrimes = forks
 	if err := s.runWord(c20Drain); err != nil {
+		if forks {
+			return "forks:chain-stuck", fmt.Sprintf("set %v, every prime block of the drain mined as two siblings: %v", set, err), ""
+		}
 		return "harness", "drain: " + err.Error(), ""
 	}
 	// ---- origin ledger: the Quai accounts that convert (k0, the factory, the children) lose exactly
@@ -657,6 +714,7 @@ func c20Pipeline(c *vx.Ctx) {
 	}
 	p.Bound("conversions_per_prime_block", maxN)
 	p.Bound("menu", len(c20Menu()))
+	p.Bound("variants", "plain drain; drain in which every prime block is mined as two siblings (head P1, then P2)")
 	if c.Shard == 0 {
 		p.States = int64(len(sets))
 	}
@@ -668,31 +726,49 @@ func c20Pipeline(c *vx.Ctx) {
 			p.Incomplete("deadline")
 			return
 		}
-		var key, desc, cls string
-		if perr := vx.Guard(func() { key, desc, cls = c20RunSet(set) }); perr != "" {
-			key, desc = "panic:"+vx.PanicSite(perr), fmt.Sprintf("set %v: %s", set, perr)
-		}
-		if key == "harness" {
-			c.HarnessError(fmt.Sprintf("set %v: %s", set, desc))
-			return
-		}
-		p.Transitions += int64(len(c20Drain))
-		p.Traces++
-		if key != "" {
-			p.Outcome("VIOLATED:" + key)
-			set := set
-			if c.Confirm(desc, func() string {
-				var k string
-				vx.Guard(func() { k, _, _ = c20RunSet(set) })
-				return k
-			}) {
-				c.Violate("pipeline", "pipeline:"+key, desc, set)
+		plainKey := ""
+		for _, forks := range []bool{false, true} {
+			forks := forks
+			var key, desc, cls string
+			if perr := vx.Guard(func() { key, desc, cls = c20RunSet(set, forks) }); perr != "" {
+				key, desc = "panic:"+vx.PanicSite(perr), fmt.Sprintf("set %v: %s", set, perr)
 			}
-			continue
-		}
-		p.Outcome(cls)
-		if i%9 == 0 {
-			p.Sample(map[string]any{"set": fmt.Sprint(set), "outcomes": cls})
+			if key == "harness" {
+				c.HarnessError(fmt.Sprintf("set %v (sibling prime blocks=%v): %s", set, forks, desc))
+				return
+			}
+			p.Transitions += int64(len(c20Drain))
+			p.Traces++
+			tag := ""
+			if forks {
+				tag = "sibling-primes:"
+			}
+			if !forks {
+				plainKey = key
+			} else if key != "" && key == plainKey {
+				// the same failure as without the sibling blocks: one finding, reported above
+				p.Outcome("sibling-primes:same-failure-as-plain-drain")
+				continue
+			}
+			if key != "" {
+				p.Outcome("VIOLATED:" + tag + key)
+				set := set
+				if forks {
+					desc = "every prime block of the drain mined as two siblings (head P1, then switch to P2): " + desc
+				}
+				if c.Confirm(desc, func() string {
+					var k string
+					vx.Guard(func() { k, _, _ = c20RunSet(set, forks) })
+					return k
+				}) {
+					c.Violate("pipeline", "pipeline:"+tag+key, desc, map[string]any{"set": set, "sibling_primes": forks})
+				}
+				continue
+			}
+			p.Outcome(tag + cls)
+			if i%9 == 0 && !forks {
+				p.Sample(map[string]any{"set": fmt.Sprint(set), "outcomes": cls})
+			}
 		}
 	}
 }
@@ -717,9 +793,16 @@ func replayC20(c *vx.Ctx, v vx.Violation) string {
 	}
 	raw, _ := jsonMarshal(v.Replay)
 	var set []c20Conv
-	if err := jsonUnmarshal(raw, &set); err != nil {
-		return "bad replay: " + err.Error()
+	var rp struct {
+		Set   []c20Conv `json:"set"`
+		Forks bool      `json:"sibling_primes"`
 	}
-	_, d, _ := c20RunSet(set)
+	if err := jsonUnmarshal(raw, &set); err != nil {
+		if err := jsonUnmarshal(raw, &rp); err != nil {
+			return "bad replay: " + err.Error()
+		}
+		set = rp.Set
+	}
+	_, d, _ := c20RunSet(set, rp.Forks)
 	return d
 }
